@@ -387,6 +387,17 @@ def run(ctx):
             calls = [c for c in f.calls() if c.bb in reg]
             rm = [c for c in calls if c.path in ("grep_matcher::ByteSet::remove", "grep_matcher::ByteSet::remove_all")]
             looped = any(c.bb in C.reach_after(f, c.bb) for c in rm)
+            if not rm:
+                # the iterator spelling: `….for_each(|b| set.remove(b))` — a closure created in the arm whose body removes, handed
+                # to an adapter that visits every element
+                ebf = ExprBuilder(f)
+                for c in calls:
+                    if c.path in ("core::iter::traits::iterator::Iterator::for_each", "core::iter::traits::iterator::Iterator::fold"):
+                        for x in walk(ebf.operand(c.args[1])):
+                            if x.k == "closure" and x[1] in facts.fns and any(
+                                    c2.path in ("grep_matcher::ByteSet::remove", "grep_matcher::ByteSet::remove_all")
+                                    for g_ in [facts.fns[x[1]]] + facts.closures_of(x[1]) for c2 in g_.calls()):
+                                rm, looped = [c], True
             return (bool(rm) and looped, "removes every byte of the leaf from the set (in a loop)" if rm and looped
                     else "does not remove all bytes the leaf can match")
 
